@@ -66,17 +66,19 @@ func vlgOpts(g *vlgRng) *GCPMultiEndpointOptions {
 }
 
 func TestVerifLocksGME(t *testing.T) {
-	grpclog.SetLoggerV2(grpclog.NewLoggerV2(ioutil.Discard, ioutil.Discard, ioutil.Discard))
+	grpclog.SetLoggerV2(grpclog.NewLoggerV2WithVerbosity(ioutil.Discard, ioutil.Discard, ioutil.Discard, 100))
 	ms := vlgEnvInt("VERIF_MS", 4000)
 	seed := uint64(vlgEnvInt("VERIF_SEED", 1))
 	workers := vlgEnvInt("VERIF_WORKERS", 8)
 	rounds := 1 + ms/700
 	for r := 0; r < rounds; r++ {
-		vlgRound(t, seed+uint64(r)*104729, workers, time.Duration(ms/rounds)*time.Millisecond)
+		// rounds 0,1: Close() from two goroutines against concurrent updates; then route probes against updates
+		// (on the unfixed code the probes soon die with "fatal error: concurrent map read and map write")
+		vlgRound(t, seed+uint64(r)*104729, workers, time.Duration(ms/rounds)*time.Millisecond, r < 2)
 	}
 }
 
-func vlgRound(t *testing.T, seed uint64, workers int, dur time.Duration) {
+func vlgRound(t *testing.T, seed uint64, workers int, dur time.Duration, closers bool) {
 	g := &vlgRng{s: seed}
 	gme, err := NewGCPMultiEndpoint(vlgOpts(g), grpc.WithTransportCredentials(insecure.NewCredentials()))
 	if err != nil {
@@ -96,6 +98,15 @@ func vlgRound(t *testing.T, seed uint64, workers int, dur time.Duration) {
 					return
 				default:
 				}
+				if closers {
+					if w < 2 {
+						_ = gme.Close()
+						time.Sleep(time.Duration(100+r.intn(400)) * time.Microsecond)
+					} else {
+						time.Sleep(time.Millisecond)
+					}
+					continue
+				}
 				ctx := context.Background()
 				if r.intn(3) > 0 {
 					ctx = NewMEContext(ctx, names[r.intn(len(names))])
@@ -114,7 +125,7 @@ func vlgRound(t *testing.T, seed uint64, workers int, dur time.Duration) {
 	wg.Add(1)
 	go func() {
 		defer wg.Done()
-		deadline := time.Now().Add(dur)
+		deadline := time.Now().Add(dur + 30*time.Millisecond) // still updating while Close runs
 		for time.Now().Before(deadline) {
 			_ = gme.UpdateMultiEndpoints(vlgOpts(g))
 			time.Sleep(time.Duration(50+g.intn(500)) * time.Microsecond)
